@@ -73,6 +73,7 @@ def run(run):
     c04.run_cases(run, cases, "sel")
     check_twins(run, run.rng, run.tier == "quick")
     check_invoke_off(run, run.rng, run.tier == "quick")
+    check_reentrant(run, run.rng, run.tier == "quick")
     idc = [identity_case(run.rng) for _ in range(200 if run.tier == "quick" else 4000)]
     res = c04.run_cases(run, idc, "selid", use_oracle=False)
     for c, r in zip(idc, res):
@@ -194,6 +195,37 @@ def check_invoke_off(run, rng, quick):
             run.property_failure("c13:invoke-off:output", "expand_invoke=False: %r gave %r, expected %r" % (c["page"], r["out"], want), c)
         elif not r.get("stack_ok", True):
             run.property_failure("c13:invoke-off:stack", "expand_invoke=False: the expansion path is not restored after %r" % c["page"], c)
+
+
+def check_reentrant(run, rng, quick):
+    """The selection of one expand() call holds for the whole call, also after Lua code or a hook has used the context for
+    an expansion of its own in the middle of it."""
+    LIB = [["S1", "S1[{{{1|}}}]", False], ["S2", "S2({{{1|}}})", False], ["Flg", "F<{{{1|}}}>", True], ["Oth", "O", False]]
+    MODS = {"m": "local e = {}\nfunction e.pp(frame) return frame:preprocess('p{{oth}}') end\n"
+                 "function e.et(frame) return frame:expandTemplate{title = 'oth'} end\nfunction e.plain(frame) return 'q' end\nreturn e"}
+    cases = []
+    for _ in range(40 if quick else 800):
+        mid = rng.choice(["{{#invoke:m|pp}}", "{{#invoke:m|et}}", "{{#invoke:m|plain}}", "{{oth}}", ""])
+        hook = rng.random() < 0.3
+        parts = ["{{s1|a}}", "{{flg|b}}", mid, "{{s1|c}}", "{{s2|d}}", "{{flg|e}}"]
+        if rng.random() < 0.5:
+            parts = parts[2:] + parts[:2]
+        page = " ".join(p for p in parts if p)
+        opts = {"pre_expand": True, "expand_names": ["s1", "oth"], "not_expand_names": ["flg"], "invoke": True}
+        if hook:
+            opts.update({"tfn": True, "tfn_reenter": {"oth": "{{s2|h}} {{s1|h}}"}})
+        # s1 and oth are selected by name, flg is flagged but vetoed, s2 is neither: only s1 and oth expand
+        want = page.replace("{{s1|a}}", "S1[a]").replace("{{s1|c}}", "S1[c]").replace("{{oth}}", "O") \
+                   .replace("{{#invoke:m|pp}}", "pO").replace("{{#invoke:m|et}}", "O").replace("{{#invoke:m|plain}}", "q")
+        cases.append(({"lib": LIB, "modules": MODS, "page": page, "opts": opts, "title": "Tt"}, want))
+    res = lib.run_impl("expandlib", [c for c, _ in cases], shards=lib.NCPU)
+    for (c, want), r in zip(cases, res):
+        run.count(["reentrant", c["page"], c["opts"]], True, "reentrant-selection")
+        if r.get("outcome") != "ok":
+            run.property_failure("c13:reentrant:%s:%s" % (r.get("outcome"), r.get("exc", "")), "expand raised: %r" % (r,), c)
+        elif r["out"] != want:
+            run.property_failure("c13:reentrant:selection-lost", "selection by name around a nested expansion: %r gave %r, expected %r"
+                                 % (c["page"], r["out"], want), c)
 
 
 def replay(data):
